@@ -220,6 +220,7 @@ fn main() {
         "growth" => engines::engine_growth(&a),
         "shrink" => engines::engine_shrink(&a),
         "eqclass" => engines::engine_eqclass(&a),
+        "huge" => engines::engine_huge(&a),
         "conc" => conc::engine_conc(&a),
         "ints" => sweeps::engine_ints(&a),
         "tls" => sweeps::engine_tls(&a),
